@@ -97,6 +97,10 @@ def harnesses(tier):
             out.append(nonpositive(t, "real"))
         if t.uses_x and not t.cmp_only:
             out.append(spec(t, 2, "real", weights=False, special=True))
+    for t in cat.extra_unit():
+        out.append(spec(t, 2, "real", weights=True, timeout=90))
+        out.append(spec(t, 2, "real", weights=False, special=True, timeout=90))
+        out.append(nonpositive(t, "real"))
     slots = cat.slot()
     if tier == "thorough":
         slots = slots[::2]  # thorough tier is sized by wall time (see DESIGN.md 7.1)
